@@ -229,6 +229,53 @@ fn scenario(history: &[Note], rng: &mut Rng, dir: &str, serial: bool) -> (Vec<St
     (events, pubs, finals, actions)
 }
 
+/// A dependency that is open in the editor: the importer must be analysed against the editor's text of the
+/// dependency, not the file on disk. Sequential; returns the messages of the importer's last published diagnostics.
+fn dep_scenario(dir: &str, disk_dep: &str, editor_dep: Option<&str>, importer: &str) -> String {
+    let _ = incan::lsp::verif_hooks::take();
+    std::fs::write(format!("{dir}/dep.incn"), disk_dep).expect("dep");
+    let (mut service, mut socket) = LspService::new(incan::lsp::IncanLanguageServer::new);
+    let mut last_main: Option<Vec<String>> = None;
+    let main_uri = format!("file://{dir}/main_importer.incn");
+    let dep_uri = format!("file://{dir}/dep.incn");
+    let mut reqs: Vec<Request> = vec![
+        Request::build("initialize").params(json!({"capabilities": {}})).id(1).finish(),
+        Request::build("initialized").params(json!({})).finish(),
+    ];
+    if let Some(t) = editor_dep {
+        reqs.push(Request::build("textDocument/didOpen").params(json!({"textDocument": {"uri": dep_uri, "languageId": "incan", "version": 1, "text": t}})).finish());
+    }
+    reqs.push(Request::build("textDocument/didOpen").params(json!({"textDocument": {"uri": main_uri, "languageId": "incan", "version": 1, "text": importer}})).finish());
+    reqs.push(Request::build("textDocument/didChange").params(json!({"textDocument": {"uri": main_uri, "version": 2}, "contentChanges": [{"text": importer}]})).finish());
+    for req in reqs {
+        let waker = futures::task::noop_waker();
+        let mut cx = Context::from_waker(&waker);
+        let _ = service.poll_ready(&mut cx);
+        let mut f: Fut = Box::pin(service.call(req));
+        for _ in 0..2000 {
+            let done = poll_once(&mut f).is_ready();
+            while let Some(r) = drain_one(&mut socket) {
+                if r.method() == "textDocument/publishDiagnostics" {
+                    if let Some(p) = r.params() {
+                        if p.get("uri").and_then(|u| u.as_str()) == Some(main_uri.as_str()) {
+                            let mut msgs: Vec<String> = p.get("diagnostics").and_then(|d| d.as_array()).map(|a| a.iter().filter_map(|x| x.get("message").and_then(|m| m.as_str()).map(|m| m.lines().next().unwrap_or("").replace(' ', "_"))).collect()).unwrap_or_default();
+                            msgs.sort();
+                            last_main = Some(msgs);
+                        }
+                    }
+                }
+            }
+            if done { break; }
+        }
+    }
+    let _ = incan::lsp::verif_hooks::take();
+    match last_main {
+        Some(m) if m.is_empty() => "clean".to_string(),
+        Some(m) => m.join("+"),
+        None => "nothing-published".to_string(),
+    }
+}
+
 fn gen_history(rng: &mut Rng) -> Vec<Note> {
     let n = 2 + rng.below(4) as usize;
     let two_docs = rng.chance(1, 4);
@@ -294,6 +341,19 @@ pub fn run(out: &mut Out, tier: &str, seed: u64, scratch: &str) {
             );
         }
     }
+    // dependencies open in the editor: what is analysed is the editor's text, whatever the file on disk says
+    let valid = "pub def helper() -> int:\n    return 1\n";
+    let variants = [("broken", "pub def helper( -> int:\n    return 1\n"), ("no-helper", "pub def other() -> int:\n    return 1\n"), ("private-helper", "def helper() -> int:\n    return 1\n"), ("helper-returns-str", "pub def helper() -> str:\n    return \"s\"\n")];
+    let importer = "from dep import helper\n\ndef main() -> None:\n    x: int = helper()\n    print(x)\n";
+    let on_disk_valid = dep_scenario(&dir, valid, None, importer);
+    for (label, text) in variants {
+        let on_disk = dep_scenario(&dir, text, None, importer);
+        let in_editor = dep_scenario(&dir, valid, Some(text), importer);
+        out.case(&format!("c18 dep editor-{label}-over-valid-disk"), &if on_disk == in_editor { format!("same {}", (on_disk != on_disk_valid) as u8) } else { format!("differs disk-only={on_disk} editor={in_editor}") });
+        let healed = dep_scenario(&dir, text, Some(valid), importer);
+        out.case(&format!("c18 dep editor-valid-over-{label}-disk"), &if healed == on_disk_valid { "same 0".to_string() } else { format!("differs disk-only={on_disk_valid} editor={healed}") });
+    }
+    std::fs::write(format!("{dir}/dep.incn"), valid).expect("dep");
     let _ = std::fs::remove_dir_all(&dir);
     out.meta(&json!({"histories": histories.len(), "schedules_per_history": per, "scenarios": total}));
 }
